@@ -1,2 +1,34 @@
-From RSP Require Import Base.
-Theorem C16_placeholder : True. Proof. exact I. Qed.
+(* C16 -- Stream framing is independent of how TCP/TLS delivers the bytes.  Statements only.
+   A delivery schedule is an arbitrary list of events: R k (a read returns at most k >= 1 bytes),
+   W (TLS: no application data yet), T (poll timeout), E (error); when it runs out the stream ends. *)
+From RSP Require Import Base Consts Frame Spec_C16 Frame_proofs.
+Local Open Scope N_scope.
+
+(* Independence: for every byte stream and EVERY schedule that only delivers data (any segmentation:
+   1-byte reads, splits inside the header, ...) and outlasts the stream, the packets handed to the
+   handler are exactly frames(stream) -- hence the same for any two such schedules. *)
+Theorem C16_indep : forall fuel idle sched stream,
+  forallb is_data sched = true -> (length stream < count_r sched)%nat -> (length stream < fuel)%nat ->
+  reader fuel idle (fun _ => true) sched stream = frames stream.
+Proof. exact reader_indep. Qed.
+Print Assumptions C16_indep.
+
+(* Stalls, errors, early EOF, rejected packets: for every schedule whatsoever and every handler
+   behaviour, what is handed over is a prefix of frames(stream): only whole packets, each only after
+   all of its bytes have arrived, never a slice from the middle, nothing after a bad length field. *)
+Theorem C16_prefix : forall fuel idle accept sched stream,
+  is_prefix_of (reader fuel idle accept sched stream) (frames stream) = true.
+Proof. intros. apply reader_prefix. unfold frames. lia. Qed.
+Print Assumptions C16_prefix.
+
+(* an idle timeout (the only case in which a client reader keeps the connection) consumed no byte *)
+Theorem C16_idle_at_boundary : forall sched stream st' s', radget sched stream = (Idle, st', s') -> st' = stream.
+Proof. exact radget_idle. Qed.
+Print Assumptions C16_idle_at_boundary.
+
+Example C16_example :
+  let p := [1; 7; 0; 20] ++ repeat 9 16 in
+  frames (p ++ p) = [p; p] /\
+  reader 10 true (fun _ => true) [R 3; R 1; W; R 100; R 7; R 100] (p ++ p) = [p; p] /\
+  reader 10 true (fun _ => true) [R 10; T; R 100; R 100] (p ++ p) = [].
+Proof. vm_compute. repeat split. Qed.
